@@ -14,6 +14,12 @@
      NewHead / ReorgMsg       a message received from the newHeads / reorg feed subscription
      End         the source was held stable and honest until the node went quiet; final chain
 
+   A Resp event carries the answer kind r (ok / bad / fg / wh / err) and corr: for a corrupted copy
+   what the altered field is to code that looks at Hash and ParentHash only (hash / parent / other:
+   "other" = altered content under the honest hash), for a forged copy its kind (diff / root /
+   oldroot).  The traces are validated against the model of the code as it is: root checks on every
+   shape, a verdict per answer — a Stored event for any altered answer has no explanation.
+
    Every observable action is the corresponding action of Sync.tla WITH ITS GUARD, bound to the
    logged values.  Everything else the pipeline does (spawning fetchers, context checks, running
    callbacks in order, verification, the store attempts that fail, starting and ending a revert
